@@ -5,6 +5,7 @@ package interp
 
 import (
 	"go/types"
+	"math/big"
 
 	"golang.org/x/tools/go/ssa"
 )
@@ -42,3 +43,25 @@ func natBitsMul64(fr *frame, fn *ssa.Function, args []value) value {
 	lo := tt.Extract(63, 0, p)
 	return tuple{mkval(hi, types.Uint64), mkval(lo, types.Uint64)}
 }
+
+func init() {
+	// formatting of amounts is never the subject of a property
+	natives["(go.sia.tech/core/types.Currency).String"] = func(fr *frame, fn *ssa.Function, a []value) value { return "<currency>" }
+	natives["(go.sia.tech/core/types.Currency).ExactString"] = func(fr *frame, fn *ssa.Function, a []value) value { return "<currency>" }
+	natives["(go.sia.tech/core/types.Currency).Cmp"] = natCurrencyCmp
+}
+
+// Currency.Cmp without forking: -1/0/1 as an if-then-else term.
+func natCurrencyCmp(fr *frame, fn *ssa.Function, args []value) value {
+	tt := fr.i.tt
+	c, v := args[0].(structure), args[1].(structure)
+	clo, chi := tt.toTerm(c[0]), tt.toTerm(c[1])
+	vlo, vhi := tt.toTerm(v[0]), tt.toTerm(v[1])
+	m1 := tt.Const(64, bigMinus1)
+	one, zero := tt.ConstU(64, 1), tt.ConstU(64, 0)
+	lowCmp := tt.Ite(tt.Cmp("bvult", clo, vlo), m1, tt.Ite(tt.Cmp("bvult", vlo, clo), one, zero))
+	r := tt.Ite(tt.Cmp("bvult", chi, vhi), m1, tt.Ite(tt.Cmp("bvult", vhi, chi), one, lowCmp))
+	return mkval(r, types.Int)
+}
+
+var bigMinus1 = big.NewInt(-1)
